@@ -24,11 +24,9 @@ import (
 	"testing"
 
 	"github.com/pingcap/kvproto/pkg/metapb"
-	"github.com/pingcap/log"
 	"github.com/tikv/pd/server/core"
 	"github.com/tikv/pd/server/kv"
 	"github.com/tikv/pd/server/schedule/placement"
-	"go.uber.org/zap/zapcore"
 	"pdverif/livesrv"
 	"pdverif/vkit"
 	"pdverif/vkit/faultkv"
@@ -49,7 +47,7 @@ const (
 )
 
 func init() {
-	log.SetLevel(zapcore.FatalLevel)
+	vkit.SilenceLog()
 	vkit.Register("rules", vkit.N{Quick: 3000, Thorough: 100000}, genCase, runCase)
 }
 
